@@ -23,7 +23,9 @@ EXTENDS ObsCore
 \* ---- replica names ------------------------------------------------------------------------------------------
 \* openQCD family: the stem is cut at its first "r": ensr10 -> ens|r10
 NameCutFirst(stem, sep) == StrCat(StrCat(StrBefore(stem, sep), "|"), StrSub(stem, StrLen(StrBefore(stem, sep)) + 1, StrLen(stem)))
-RepName(fmt, stem, par) == IF fmt = "hd5" THEN par.ens_id ELSE NameCutFirst(stem, "r")
+\* Hadrons files carry no ensemble name: the caller states it
+HadronsFmts == {"hd5", "hd5mat", "hd5dist"}
+RepName(fmt, stem, par) == IF fmt \in HadronsFmts THEN par.ens_id ELSE NameCutFirst(stem, "r")
 
 \* ---- configuration numbers ----------------------------------------------------------------------------------
 Stored(rep) == [i \in DOMAIN rep.recs |-> rep.recs[i].cfg]
@@ -34,6 +36,30 @@ CfgMap(fmt, s, par) ==
     [] fmt \in {"qtop", "gfms"} -> LET steps == s[2] - s[1]  m == [i \in DOMAIN s |-> s[i] \div steps]
                                    IN IF m[1] > 1 THEN ShiftToOne(m) ELSE m
     [] OTHER -> s
+
+\* ---- matrix-valued Hadrons outputs: which stored matrices make up the requested object ---------------------------
+\* ExternalLeg: the one matrix of the file.  Bilinear: the matrix stored under the gamma name.  Four-quark vertices: the signed
+\* sum over the Lorentz structures the vertex name stands for (VA = sum_mu gamma_mu x gamma_mu gamma_5, ..., TT = sum_{mu<nu}
+\* sigma_munu x sigma_munu, TTtilde = sum sigma_munu x sigma_rhosigma over complementary index pairs with sign -epsilon_munurhosigma).
+Lorentz == <<"X", "Y", "Z", "T">>
+GammaName(i, axial) == StrCat(StrCat("Gamma", Lorentz[i]), IF axial THEN "Gamma5" ELSE "")
+ScalarName(ch) == IF ch = "S" THEN "Identity" ELSE "Gamma5"
+SigmaName(i, j) == StrCat(StrCat("Sigma", Lorentz[i]), Lorentz[j])
+Inversions(q) == Cardinality({<<a, b>> \in (DOMAIN q) \X (DOMAIN q) : a < b /\ q[a] > q[b]})
+MinusEpsilon(q) == IF Inversions(q) % 2 = 0 THEN "-1" ELSE "1"
+IndexPairs == <<<<1, 2>>, <<1, 3>>, <<1, 4>>, <<2, 3>>, <<2, 4>>, <<3, 4>>>>
+Complement(pr) == CHOOSE c \in {IndexPairs[k] : k \in DOMAIN IndexPairs} : {c[1], c[2]} \cap {pr[1], pr[2]} = {}
+Ch(v, k) == StrSub(v, k, k)
+VertexTerms(v) ==
+  CASE v \in {"VV", "VA", "AV", "AA"} -> [i \in 1..4 |-> [a |-> GammaName(i, Ch(v, 1) = "A"), b |-> GammaName(i, Ch(v, 2) = "A"), sign |-> "1"]]
+    [] v \in {"SS", "SP", "PS", "PP"} -> << [a |-> ScalarName(Ch(v, 1)), b |-> ScalarName(Ch(v, 2)), sign |-> "1"] >>
+    [] v = "TT" -> [k \in 1..6 |-> [a |-> SigmaName(IndexPairs[k][1], IndexPairs[k][2]), b |-> SigmaName(IndexPairs[k][1], IndexPairs[k][2]), sign |-> "1"]]
+    [] v = "TTtilde" -> [k \in 1..6 |-> LET pr == IndexPairs[k]  co == Complement(pr) IN
+                                         [a |-> SigmaName(pr[1], pr[2]), b |-> SigmaName(co[1], co[2]), sign |-> MinusEpsilon(<<pr[1], pr[2], co[1], co[2]>>)]]
+WantedTerms(want) ==
+  CASE want.k = "leg" -> << [a |-> "leg", b |-> "", sign |-> "1"] >>
+    [] want.k = "bilinear" -> << [a |-> want.gamma, b |-> "", sign |-> "1"] >>
+    [] want.k = "fourquark" -> VertexTerms(want.vertex)
 
 \* ---- reductions ---------------------------------------------------------------------------------------------
 RSumOf(q) == RSumSeq(q)
@@ -49,6 +75,15 @@ Series(fmt, p, par) ==
          << RSumSeq(p[j + 1][f][1]) >>
     [] fmt = "ms5" ->    \* p[timeslice] = <<re, im>> of the selected correlator; the reader returns a complex entry per timeslice
          FoldSeq(LAMBDA x, acc : acc \o x, <<>>, p)
+    [] fmt = "hd5mat" ->   \* p[j] = [a, b, m]: stored matrices with their labels, m[entry] = <<re, im>> in row-major order;
+                           \* one complex entry (real part, imaginary part) per matrix element of the signed sum
+         LET terms == WantedTerms(par.want)
+             at(t) == CHOOSE j \in DOMAIN p : p[j].a = t.a /\ p[j].b = t.b
+             sum(e, c) == RSumSeq([j \in DOMAIN terms |-> RMul(terms[j].sign, p[at(terms[j])].m[e][c])])
+         IN [q \in 1..(2 * Len(p[1].m)) |-> sum((q + 1) \div 2, IF q % 2 = 1 THEN 1 ELSE 2)]
+    [] fmt = "hd5dist" ->  \* p[source time][timeslice] = <<re, im>>: average over all source times of the correlator shifted to source 0
+         LET nt == Len(p)  c == IF par.im THEN 2 ELSE 1 IN
+         [t \in 1..nt |-> RDiv(RSumSeq([x0 \in 1..nt |-> p[x0][((t - 1 + x0 - 1) % nt) + 1][c]]), RFromInt(nt))]
     [] fmt \in {"sfcf", "hd5"} ->  \* p[timeslice] = <<re, im>>: the real or the imaginary column
          [t \in DOMAIN p |-> p[t][IF par.im THEN 2 ELSE 1]]
 
